@@ -30,7 +30,8 @@ pub fn universe() -> Vec<(&'static str, &'static str, &'static str, &'static str
         (A, P, B, G1),
         (B, Q, "2", G1),
         (A, P, B, G2),
-        (C, P, A, G2),
+        // only in a named graph; together with (a p b) a fan-in on b once g1 and g2 are merged by FROM
+        (C, P, B, G2),
     ]
 }
 
